@@ -36,3 +36,8 @@ impl NrziDecode {
         1 ^ a ^ tmp
     }
 }
+
+#[cfg(rustradio_verif)]
+pub mod verif_access {
+    include!(concat!(env!("RUSTRADIO_VERIF_DIR"), "/access/nrzi.rs"));
+}
